@@ -1,1 +1,255 @@
-(** Props/C13.v — placeholder, to be written. *)
+(** Props/C13.v — caches are transparent, single-flight and never remember failures.
+
+    [reach nc progs sched] is the state after running the scheduler [sched] — an ARBITRARY
+    list of thread ids, any length, any number of threads — from the initial state in which
+    thread [t] is to execute the operations [nth t progs []] ([OGet (parent,name) ok] /
+    [OClear]) against one [Cache] object, with [config.no_cache = nc].  Every statement
+    is for all programs and all schedules.  Since every prefix of a schedule is a schedule,
+    a statement about "the log since the last clear" in every reachable state is a
+    statement about every epoch of every run.
+
+    Assumed (partial): [threading.Lock] is a mutex and dict get/set/clear are atomic —
+    that is what the [PAcquire] / [PStore] / ... instructions of Model/Cache.v encode. *)
+From PV Require Import Cache CacheProofs.
+Open Scope string_scope.
+
+(** mutual exclusion: at most one thread is between Acquire and Release, and it is the
+    lock's owner *)
+Theorem C13_mutex : forall nc progs sched t1 t2,
+  let st := reach nc progs sched in
+  holds (threads st t1) = true -> holds (threads st t2) = true -> t1 = t2.
+Proof. exact mutex. Qed.
+Print Assumptions C13_mutex.
+
+Theorem C13_lock_owner : forall nc progs sched t,
+  let st := reach nc progs sched in
+  lock st = Some t <-> holds (threads st t) = true.
+Proof. exact lock_owner. Qed.
+Print Assumptions C13_lock_owner.
+
+(** single flight: per key, since the last clear, at most one creator call succeeded *)
+Theorem C13_single_flight : forall progs sched k,
+  (length (created_for k (since_clear (log (reach false progs sched)))) <= 1)%nat.
+Proof. exact single_flight. Qed.
+Print Assumptions C13_single_flight.
+
+(** ... the stored object is that one ... *)
+Theorem C13_stored_is_the_created_one : forall progs sched k o,
+  let st := reach false progs sched in
+  store st k = Some o -> created_for k (since_clear (log st)) = [o].
+Proof. exact stored_is_the_created_one. Qed.
+Print Assumptions C13_stored_is_the_created_one.
+
+(** ... and while a key is stored no thread is inside a creator for it *)
+Theorem C13_no_recreate_while_stored : forall nc progs sched t k,
+  let st := reach nc progs sched in
+  creating (threads st t) k = true -> store st k = None.
+Proof. exact no_recreate_while_stored. Qed.
+Print Assumptions C13_no_recreate_while_stored.
+
+(** same object: everything handed out under the lock for key k since the last clear is
+    the object stored under k; hence any two look-ups of one epoch got the same object *)
+Theorem C13_same_object : forall nc progs sched k o,
+  let st := reach nc progs sched in
+  In o (got_for k (since_clear (log st))) -> store st k = Some o.
+Proof. exact same_object. Qed.
+Print Assumptions C13_same_object.
+
+Theorem C13_same_object_pair : forall nc progs sched k o1 o2,
+  let l := since_clear (log (reach nc progs sched)) in
+  In o1 (got_for k l) -> In o2 (got_for k l) -> o1 = o2.
+Proof. exact same_object_pair. Qed.
+Print Assumptions C13_same_object_pair.
+
+(** what [get] returns to its caller is what that call loaded or stored under the lock *)
+Theorem C13_return_is_got : forall progs sched t r o,
+  let st := reach false progs sched in
+  In (ERet t r o) (log st) -> got_ev t r o (log st).
+Proof. exact return_is_got. Qed.
+Print Assumptions C13_return_is_got.
+
+(** a raising creator: the dict is untouched, the key stays absent, the lock is free
+    again, the exception reaches the caller *)
+Theorem C13_failure_not_cached : forall nc progs sched t r rest rg,
+  let st := reach nc progs sched in
+  threads st t = mkTh (OGet r false :: rest) PCreateExit rg ->
+  let st3 := step t (step t (step t st)) in
+  store (step t st) = store st /\ store st3 = store st /\ store st3 (key_of r) = None /\
+  lock st3 = None /\ threads st3 t = mkTh rest P0 None /\
+  log st3 = ERaise t r :: ERel t :: EFailed t r :: log st.
+Proof. exact failure_not_cached. Qed.
+Print Assumptions C13_failure_not_cached.
+
+Theorem C13_raising_thread_holds_no_lock : forall nc progs sched t,
+  let st := reach nc progs sched in
+  tpc (threads st t) = PRaise -> lock st <> Some t.
+Proof. exact raising_thread_holds_no_lock. Qed.
+Print Assumptions C13_raising_thread_holds_no_lock.
+
+(** ... so a later look-up tries again: whoever finds the key absent calls the creator *)
+Theorem C13_miss_calls_creator : forall st t r ok rest rg,
+  threads st t = mkTh (OGet r ok :: rest) PIfContains rg ->
+  store st (key_of r) = None ->
+  tpc (threads (step t st) t) = PCreateEnter /\
+  log (step t (step t st)) = ECall t r :: log st.
+Proof. exact miss_calls_creator. Qed.
+Print Assumptions C13_miss_calls_creator.
+
+(** clear: every key is absent afterwards and a new epoch starts (so, by
+    [C13_miss_calls_creator], the next look-up creates afresh) ... *)
+Theorem C13_clear_recreates : forall st t rest rg,
+  threads st t = mkTh (OClear :: rest) PClearAll rg ->
+  forall k, store (step t st) k = None /\
+            created_for k (since_clear (log (step t st))) = [] /\
+            got_for k (since_clear (log (step t st))) = [].
+Proof. exact clear_empties. Qed.
+Print Assumptions C13_clear_recreates.
+
+(** ... with an object different from every object created before *)
+Theorem C13_fresh_objects : forall nc progs sched,
+  NoDup (all_created (log (reach nc progs sched))).
+Proof. exact fresh_objects. Qed.
+Print Assumptions C13_fresh_objects.
+
+(** caching disabled: nothing is ever stored, every look-up calls its creator exactly
+    once and returns the object of that very call *)
+Theorem C13_no_cache_never_stores : forall progs sched k,
+  store (reach true progs sched) k = None.
+Proof. exact no_cache_never_stores. Qed.
+Print Assumptions C13_no_cache_never_stores.
+
+Theorem C13_no_cache_calls_every_time : forall progs sched t,
+  let st := reach true progs sched in
+  calls_by t (log st) = (finished_by t (log st) + inflight (threads st t))%nat.
+Proof. exact no_cache_calls_every_time. Qed.
+Print Assumptions C13_no_cache_calls_every_time.
+
+Theorem C13_no_cache_returns_own_creation : forall progs sched t r o,
+  let st := reach true progs sched in
+  In (ERet t r o) (log st) -> In (ECreated t r o) (log st).
+Proof. exact no_cache_returns_own_creation. Qed.
+Print Assumptions C13_no_cache_returns_own_creation.
+
+(** transparent: with or without the cache, under any schedule, a look-up returns an
+    object iff the creator of its key succeeds and raises iff it raises (results equal
+    modulo object identity), when what a creator does depends only on the key *)
+Theorem C13_no_cache_transparent : forall okf nc progs sched,
+  Forall (Forall (fun o => op_ok okf o = true)) progs ->
+  let st := reach nc progs sched in
+  (forall t r o, In (ERet t r o) (log st) -> okf (key_of r) = true) /\
+  (forall t r, In (ERaise t r) (log st) -> okf (key_of r) = false).
+Proof. exact outcome_is_the_creators. Qed.
+Print Assumptions C13_no_cache_transparent.
+
+(** whatever is returned for a request was made by a creator invoked for the same KEY *)
+Theorem C13_returned_object_made_for_key : forall nc progs sched t r o,
+  let st := reach nc progs sched in
+  In (ERet t r o) (log st) ->
+  exists t' r', In (ECreated t' r' o) (log st) /\ key_of r' = key_of r.
+Proof. exact returned_object_made_for_key. Qed.
+Print Assumptions C13_returned_object_made_for_key.
+
+(** * The key  f'{parent}+{name}' if parent else name
+
+    Full statement (FALSE of the code as it is):
+      C13_key_injective : forall r r', key_of r = key_of r' -> norm_req r = norm_req r'
+      C13_no_cross_talk : forall progs sched t r o, In (ERet t r o) (log st) ->
+                          exists t' r', In (ECreated t' r' o) (log st) /\ norm_req r' = norm_req r *)
+Theorem C13_key_injective_refuted :
+  (exists r r', norm_req r <> norm_req r' /\ key_of r = key_of r') /\
+  key_of (Some "/x", "a+b") = key_of (Some "/x+a", "b") /\
+  key_of (None, "q+r") = key_of (Some "q", "r").
+Proof. split; [exact key_injective_refuted|split; reflexivity]. Qed.
+Print Assumptions C13_key_injective_refuted.
+
+Theorem C13_no_cross_talk_refuted :
+  exists progs sched t r o,
+    let st := reach false progs sched in
+    In (ERet t r o) (log st) /\
+    forall t' r', In (ECreated t' r' o) (log st) -> norm_req r' <> norm_req r.
+Proof. exact no_cross_talk_refuted. Qed.
+Print Assumptions C13_no_cross_talk_refuted.
+
+(** proved when no name contains '+' (parents arbitrary), or when every parent is
+    non-empty and '+'-free (names arbitrary) *)
+Theorem C13_key_injective_partial : forall r r',
+  (name_plus_free r = true /\ name_plus_free r' = true) \/
+  (parent_plus_free r = true /\ parent_plus_free r' = true) ->
+  key_of r = key_of r' -> norm_req r = norm_req r'.
+Proof. exact key_injective_partial. Qed.
+Print Assumptions C13_key_injective_partial.
+
+(** distinct requests never receive each other's object, on any set [P] of requests on
+    which the key is injective ... *)
+Theorem C13_no_cross_talk_partial : forall P nc progs sched t r o,
+  key_inj_on P -> Forall (Forall (op_sat P)) progs ->
+  let st := reach nc progs sched in
+  In (ERet t r o) (log st) ->
+  exists t' r', In (ECreated t' r' o) (log st) /\ norm_req r' = norm_req r.
+Proof. exact no_cross_talk_partial. Qed.
+Print Assumptions C13_no_cross_talk_partial.
+
+(** ... such as these two *)
+Theorem C13_key_inj_on_plus_free_names : key_inj_on name_plus_free.
+Proof. exact key_inj_names. Qed.
+Print Assumptions C13_key_inj_on_plus_free_names.
+
+Theorem C13_key_inj_on_plus_free_parents : key_inj_on parent_plus_free.
+Proof. exact key_inj_parents. Qed.
+Print Assumptions C13_key_inj_on_plus_free_parents.
+
+(** * Non-vacuity: concrete runs (evaluated) *)
+
+Definition ka : req := (None, "a").
+Definition kb : req := (Some "/p", "b").
+
+(** two threads race for the same key; thread 1 is blocked on the lock while thread 0 is
+    inside the creator; one creation, both get object 0 *)
+Definition race_progs : list (list op) := [[OGet ka true]; [OGet ka true]].
+Definition race_sched : list tid := [0; 1; 0; 1; 1; 0; 1; 0; 0; 1; 0; 0; 0; 1; 1; 1; 1; 1; 1].
+
+Example C13_race_nonvacuous :
+  model_log false race_progs race_sched =
+    [EAcq 0; ECall 0 ka; ECreated 0 ka 0%Z; EStore 0 ka 0%Z; ERel 0; ERet 0 ka 0%Z; EAcq 1;
+     ELoad 1 ka 0%Z; ERel 1; ERet 1 ka 0%Z]
+  /\ holds (threads (reach false race_progs [0; 1; 0; 1; 1; 0]) 0) = true
+  /\ creating (threads (reach false race_progs [0; 1; 0; 1; 1; 0]) 0) "a" = true
+  /\ tpc (threads (reach false race_progs [0; 1; 0; 1; 1; 0]) 1) = PAcquire.
+Proof. vm_compute. repeat split. Qed.
+
+(** failure is not remembered, clear starts afresh *)
+Definition fail_progs : list (list op) :=
+  [[OGet kb false; OGet kb true; OGet kb true; OClear; OGet kb true]].
+
+Example C13_fail_clear_nonvacuous :
+  filter op_level (model_log false fail_progs (repeat 0 40)) =
+    [ECall 0 kb; EFailed 0 kb; ERaise 0 kb;
+     ECall 0 kb; ECreated 0 kb 0%Z; ERet 0 kb 0%Z;
+     ERet 0 kb 0%Z;
+     ECleared 0;
+     ECall 0 kb; ECreated 0 kb 1%Z; ERet 0 kb 1%Z]
+  /\ threads (reach false fail_progs [0; 0; 0; 0]) 0
+     = mkTh [OGet kb false; OGet kb true; OGet kb true; OClear; OGet kb true] PCreateExit None
+  /\ filter op_level (model_log true fail_progs (repeat 0 40)) =
+    [ECall 0 kb; EFailed 0 kb; ERaise 0 kb;
+     ECall 0 kb; ECreated 0 kb 0%Z; ERet 0 kb 0%Z;
+     ECall 0 kb; ECreated 0 kb 1%Z; ERet 0 kb 1%Z;
+     ECleared 0;
+     ECall 0 kb; ECreated 0 kb 2%Z; ERet 0 kb 2%Z].
+Proof. vm_compute. repeat split. Qed.
+
+Example C13_partial_nonvacuous :
+  Forall (Forall (op_sat name_plus_free)) race_progs /\
+  Forall (Forall (op_sat name_plus_free)) fail_progs /\
+  Forall (Forall (op_sat parent_plus_free)) [[OGet (Some "/x", "a+b") true]] /\
+  Forall (Forall (fun o => op_ok (fun _ => true) o = true)) race_progs /\
+  name_plus_free (Some "/x+a", "b") = true /\ name_plus_free (Some "/x", "a+b") = false.
+Proof. repeat split; repeat constructor. Qed.
+
+(** the collision, end to end: the second request never runs its creator and is handed
+    the first request's object *)
+Example C13_collision_nonvacuous :
+  filter op_level (model_log false collide_progs collide_sched) =
+    [ECall 0 (Some "/x", "a+b"); ECreated 0 (Some "/x", "a+b") 0%Z; ERet 0 (Some "/x", "a+b") 0%Z;
+     ERet 0 (Some "/x+a", "b") 0%Z].
+Proof. vm_compute. reflexivity. Qed.
